@@ -1,5 +1,6 @@
 -------------------------- MODULE MC_LayoutThorough --------------------------
-(* thorough tier, replayed: 5-value alphabet for the IPv4 octets and for a
+(* thorough tier, replayed (Injective is left to MC_LayoutQuick: 625 embeddings
+   per state are too slow): 5-value alphabet for the IPv4 octets and for a
    period-2 prefix pattern; all six legal lengths and eleven illegal ones *)
 EXTENDS Dns64Layout
 MCAlphabet == {0, 1, 127, 128, 255}
